@@ -42,6 +42,7 @@ def run(rep, facts, tier):
         r_utf8store.run(rep, f, c)
         r_boundary.run(rep, f, c)
         r_inv.run(rep, f, c, 'R-INV')
+        r_inv.pending_bmp(rep, f, c, 'R-INV')
         # whole characters only: handle discipline (shared with C06)
         r_handle.run(rep, f, c)
         # D5: Finished => panic with nothing done before
